@@ -188,6 +188,7 @@ type TxRec struct {
 	Pipe   uint32
 	Header []byte
 	Body   []byte
+	T      time.Time // when the pipe's SendMsg returned
 }
 
 type sendReq struct {
@@ -298,7 +299,7 @@ func (p *VPipe) SendMsg(m *mangos.Message) error {
 
 func (p *VPipe) logTx(m *mangos.Message) {
 	p.Net.mu.Lock()
-	p.Net.Tx = append(p.Net.Tx, TxRec{p.Id, append([]byte{}, m.Header...), append([]byte{}, m.Body...)})
+	p.Net.Tx = append(p.Net.Tx, TxRec{p.Id, append([]byte{}, m.Header...), append([]byte{}, m.Body...), time.Now()})
 	p.Net.mu.Unlock()
 }
 
